@@ -303,6 +303,159 @@ def analyse_queries(tree):
     return facts
 
 
+# ----------------------------------------------------------------------------------------------
+# round 5: (a) the return chain of sdss_flagexist as a Gallina function, (b) which table / column of the raw
+# yanny object set_maskbits reads for which role (group key, label key, bit value, alias key, alias target),
+# which table's size() bounds each loop and which table the alias guard tests.
+
+_FIELD = {'l': 0, 'f': 1, 'which': 2}
+
+
+def _flag_test(e):
+    """a condition over the parameters flagexist / whichexist -> Gallina boolean expression"""
+    if isinstance(e, ast.Name) and e.id in ('flagexist', 'whichexist'):
+        return e.id
+    if isinstance(e, ast.BoolOp) and isinstance(e.op, (ast.And, ast.Or)):
+        op = ' && ' if isinstance(e.op, ast.And) else ' || '
+        return '(' + op.join(_flag_test(v) for v in e.values) + ')'
+    if isinstance(e, ast.UnaryOp) and isinstance(e.op, ast.Not):
+        return '(negb %s)' % _flag_test(e.operand)
+    raise Unrecognised('sdss_flagexist: condition of the return chain: %s' % ast.dump(e)[:80])
+
+
+def _ret_fields(e):
+    if isinstance(e, ast.Name) and e.id in _FIELD:
+        return [_FIELD[e.id]]
+    if isinstance(e, ast.Tuple) and all(isinstance(x, ast.Name) and x.id in _FIELD for x in e.elts) and e.elts:
+        return [_FIELD[x.id] for x in e.elts]
+    raise Unrecognised('sdss_flagexist: returned expression: %s' % ast.dump(e)[:80])
+
+
+def _ret_chain(node):
+    """if C: return A elif ...: ... else: return Z   ->  Gallina term"""
+    if isinstance(node, ast.Return) and node.value is not None:
+        return '[%s]' % '; '.join('%d%%nat' % k for k in _ret_fields(node.value))
+    if isinstance(node, ast.If) and len(node.body) == 1 and len(node.orelse) == 1:
+        return '(if %s then %s else %s)' % (_flag_test(node.test), _ret_chain(node.body[0]), _ret_chain(node.orelse[0]))
+    raise Unrecognised('sdss_flagexist: the return chain has an unknown shape')
+
+
+def analyse_exist_return(tree):
+    fe = _func(tree, 'sdss_flagexist')
+    rets = [n for n in ast.walk(fe) if isinstance(n, ast.Return)]
+    last = fe.body[-1]
+    term = _ret_chain(last)
+    inside = [n for n in ast.walk(last) if isinstance(n, ast.Return)]
+    if len(rets) != len(inside):
+        raise Unrecognised('sdss_flagexist returns outside its final if / elif chain')
+    return term
+
+
+def _const_str(e):
+    if isinstance(e, ast.Constant) and isinstance(e.value, str) and e.value.isidentifier():
+        return e.value
+    raise Unrecognised('expected a string constant: %s' % ast.dump(e)[:80])
+
+
+def _strip_upper(e):
+    return e.func.value if _is_upper_call(e) else e
+
+
+def _cell_ref(e, env, loopvar, depth=0):
+    """resolve e (through .upper() and local names of the loop) to maskfile[T][C][loopvar] -> (T, C)"""
+    if depth > 4:
+        raise Unrecognised('name chain too long')
+    e = _strip_upper(e)
+    if isinstance(e, ast.Name):
+        vals = env.get(e.id, [])
+        if len(vals) != 1:
+            raise Unrecognised('%s is not assigned exactly once in its loop' % e.id)
+        return _cell_ref(vals[0], env, loopvar, depth + 1)
+    if isinstance(e, ast.Subscript) and isinstance(_slice(e), ast.Name) and _slice(e).id == loopvar:
+        c = e.value
+        if isinstance(c, ast.Subscript) and isinstance(c.value, ast.Subscript) and isinstance(c.value.value, ast.Name) \
+                and c.value.value.id == 'maskfile':
+            return (_const_str(_slice(c.value)), _const_str(_slice(c)))
+    raise Unrecognised('not a cell maskfile[T][C][%s]: %s' % (loopvar, ast.dump(e)[:100]))
+
+
+def _is_maskbits_sub(e, depth):
+    """maskbits[X] (depth 1) or maskbits[X][Y] (depth 2) -> list of slices"""
+    out = []
+    while isinstance(e, ast.Subscript):
+        out.append(_slice(e))
+        e = e.value
+    if isinstance(e, ast.Name) and e.id == 'maskbits' and len(out) == depth:
+        return out[::-1]
+    return None
+
+
+def analyse_loader(tree):
+    fn = _func(tree, 'set_maskbits')
+    loops = []
+
+    def visit(body, guard):
+        for st in body:
+            if isinstance(st, ast.For):
+                loops.append((st, guard))
+            elif isinstance(st, ast.If):
+                g = None
+                t = st.test
+                if isinstance(t, ast.Compare) and len(t.ops) == 1 and isinstance(t.ops[0], ast.In) \
+                        and isinstance(t.comparators[0], ast.Name) and t.comparators[0].id == 'maskfile':
+                    g = _const_str(t.left)
+                visit(st.body, g if g is not None else guard)
+                visit(st.orelse, guard)
+    visit(fn.body, None)
+    names = {}
+    for loop, guard in loops:
+        it = loop.iter
+        ok = (isinstance(loop.target, ast.Name) and isinstance(it, ast.Call) and isinstance(it.func, ast.Name) and it.func.id == 'range'
+              and len(it.args) == 1 and isinstance(it.args[0], ast.Call) and isinstance(it.args[0].func, ast.Attribute)
+              and it.args[0].func.attr == 'size' and isinstance(it.args[0].func.value, ast.Name)
+              and it.args[0].func.value.id == 'maskfile' and len(it.args[0].args) == 1)
+        if not ok:
+            raise Unrecognised('set_maskbits: a loop that is not `for k in range(maskfile.size(T))`')
+        size_t = _const_str(it.args[0].args[0])
+        k = loop.target.id
+        env = {}
+        for node in ast.walk(loop):
+            if isinstance(node, ast.Assign) and len(node.targets) == 1 and isinstance(node.targets[0], ast.Name):
+                env.setdefault(node.targets[0].id, []).append(node.value)
+        bits = []
+        alias = []
+        for node in ast.walk(loop):
+            if not (isinstance(node, ast.Assign) and len(node.targets) == 1):
+                continue
+            t2 = _is_maskbits_sub(node.targets[0], 2)
+            t1 = _is_maskbits_sub(node.targets[0], 1)
+            if t2 is not None:                                   # maskbits[G][L] = B
+                bits.append((_cell_ref(t2[0], env, k), _cell_ref(t2[1], env, k), _cell_ref(node.value, env, k)))
+            elif t1 is not None and isinstance(node.value, ast.Dict) and len(node.value.keys) == 1:   # maskbits[G] = {L: B}
+                bits.append((_cell_ref(t1[0], env, k), _cell_ref(node.value.keys[0], env, k), _cell_ref(node.value.values[0], env, k)))
+            elif t1 is not None:                                 # maskbits[A] = maskbits[F].copy()
+                v = node.value
+                if isinstance(v, ast.Call) and isinstance(v.func, ast.Attribute) and v.func.attr == 'copy' and not v.args:
+                    v = v.func.value
+                src = _is_maskbits_sub(v, 1)
+                if src is None:
+                    raise Unrecognised('set_maskbits: alias entry is not a copy of another entry')
+                alias.append((_cell_ref(t1[0], env, k), _cell_ref(src[0], env, k)))
+        if bits and not alias:
+            if len(bits) != 2 or bits[0] != bits[1] or 'bits_size' in names or guard is not None:
+                raise Unrecognised('set_maskbits: the MASKBITS loop has an unknown shape')
+            names.update(bits_size=size_t, bits_flag=bits[0][0], bits_label=bits[0][1], bits_bit=bits[0][2])
+        elif alias and not bits:
+            if len(alias) != 1 or 'alias_size' in names or guard is None:
+                raise Unrecognised('set_maskbits: the MASKALIAS loop has an unknown shape')
+            names.update(alias_guard=guard, alias_size=size_t, alias_alias=alias[0][0], alias_flag=alias[0][1])
+        else:
+            raise Unrecognised('set_maskbits: a loop that fills neither the groups nor the aliases')
+    if len(names) != 8:
+        raise Unrecognised('set_maskbits: MASKBITS / MASKALIAS loops not both found')
+    return names
+
+
 def coq_bool(b):
     return 'true' if b else 'false'
 
@@ -314,11 +467,17 @@ def generate(repo):
         src = open(path).read()
         up, n = analyse(src)
         facts = analyse_queries(ast.parse(src))
+        ret_term = analyse_exist_return(ast.parse(src))
+        names = analyse_loader(ast.parse(src))
     except (Unrecognised, SyntaxError, OSError) as e:
         info['why'] = str(e)
         return None, info
-    info.update(recognised=True, load_upper=up, keys=n, facts=facts)
-    text = ('(* GENERATED by translate/c07.py from pydl/pydlutils/sdss.py -- do not edit. *)\n'
+    info.update(recognised=True, load_upper=up, keys=n, facts=facts, exist_return=ret_term, names=names)
+
+    def pair(tc):
+        return '("%s"%%string, "%s"%%string)' % tc
+    text = ('From Coq Require Import List Bool String.\nImport ListNotations.\n'
+            '(* GENERATED by translate/c07.py from pydl/pydlutils/sdss.py -- do not edit. *)\n'
             '(* set_maskbits: are the group, label and alias names upper-cased when stored?  (%d key expressions) *)\n'
             'Definition load_upper : bool := %s.\n'
             '(* sdss_flagname: bits = [bit for bit in range(N) if (flagvaluint & (one << np.uint64(bit))) != 0] *)\n'
@@ -333,9 +492,23 @@ def generate(repo):
             'Definition upper_labels : bool := %s.\n'
             '(* sdss_flagexist: l = sum(which) == len(which)  (true)  or any(which) (false) *)\n'
             'Definition exist_all : bool := %s.\n'
+            '(* sdss_flagexist: the final if / elif chain of return statements; components 0 = l, 1 = f, 2 = which *)\n'
+            'Definition exist_ret_code (flagexist whichexist : bool) : list nat :=\n  %s.\n'
+            '(* set_maskbits: for k in range(maskfile.size(T)) ... maskfile[T][column][k]: which cell plays which role *)\n'
+            'Definition src_bits_size : string := "%s"%%string.\n'
+            'Definition src_bits_flag : string * string := %s.\n'
+            'Definition src_bits_label : string * string := %s.\n'
+            'Definition src_bits_bit : string * string := %s.\n'
+            '(* if T in maskfile: for k in range(maskfile.size(T2)): maskbits[alias] = maskbits[flag].copy() *)\n'
+            'Definition src_alias_guard : string := "%s"%%string.\n'
+            'Definition src_alias_size : string := "%s"%%string.\n'
+            'Definition src_alias_alias : string * string := %s.\n'
+            'Definition src_alias_flag : string * string := %s.\n'
             % (n, coq_bool(up), facts['scan_bits'], coq_bool(facts['lookup_first']), coq_bool(facts['accumulate_is_add']),
                coq_bool(facts['acc_dtype_uint64']), coq_bool(facts['upper_group']), coq_bool(facts['upper_labels']),
-               coq_bool(facts['exist_all'])))
+               coq_bool(facts['exist_all']), ret_term,
+               names['bits_size'], pair(names['bits_flag']), pair(names['bits_label']), pair(names['bits_bit']),
+               names['alias_guard'], names['alias_size'], pair(names['alias_alias']), pair(names['alias_flag'])))
     return text, info
 
 
